@@ -117,4 +117,69 @@ theorem c15_segment_fields_covered :
     Gen.fields_Segment.all (fun f => persisted f || f.1 == "CommonSampleDur") = true ∧
     Gen.users_CommonSampleDur.all (fun fn => fn == "loadRep" || fn == "readMP4Segment") = true := by decide
 
+/-! ## The loaded segment table is contiguous -/
+
+/-- **`$Number$` representations**: whatever the files say about their own ends (audio frames that overlap the next
+segment's start, rounding in the packager), the loaded table is contiguous, keeps every start time, and ends where the
+last file ends. -/
+theorem c15_table_contiguous (files : List (Nat × Nat)) : ContigTable (loadByNumber files) := by
+  induction files with
+  | nil => simp [loadByNumber, ContigTable]
+  | cons a rest ih =>
+    cases rest with
+    | nil => simp [loadByNumber, ContigTable]
+    | cons b rest' =>
+      cases rest' with
+      | nil => simp [loadByNumber, ContigTable]
+      | cons c rest'' =>
+        simp only [loadByNumber, ContigTable] at ih ⊢
+        exact ⟨trivial, ih⟩
+
+theorem c15_table_starts (files : List (Nat × Nat)) : (loadByNumber files).map (·.1) = files.map (·.1) := by
+  induction files with
+  | nil => rfl
+  | cons a rest ih =>
+    cases rest with
+    | nil => rfl
+    | cons b rest' => simp only [loadByNumber, List.map_cons] at ih ⊢; rw [ih]
+
+theorem c15_table_last (files : List (Nat × Nat)) : (loadByNumber files).getLast? = files.getLast? := by
+  induction files with
+  | nil => rfl
+  | cons a rest ih =>
+    cases rest with
+    | nil => rfl
+    | cons b rest' =>
+      simp only [loadByNumber]
+      rw [List.getLast?_cons_cons] at *
+      cases hl : loadByNumber (b :: rest') with
+      | nil => cases rest' <;> simp [loadByNumber] at hl
+      | cons x xs => rw [List.getLast?_cons_cons, ← hl, ih]
+
+/-- thumbnails -/
+theorem c15_thumbs_contiguous (n dur : Nat) : ContigTable (loadThumbs n dur) := by
+  unfold loadThumbs
+  induction n with
+  | zero => simp [ContigTable]
+  | succ n ih =>
+    rw [List.range_succ, List.map_append]
+    cases n with
+    | zero => simp [ContigTable]
+    | succ m =>
+      rw [List.range_succ, List.map_append] at ih ⊢
+      have key : ∀ (l : List (Nat × Nat)) (a b : Nat × Nat), ContigTable (l ++ [a]) → a.2 = b.1 → ContigTable (l ++ [a] ++ [b]) := by
+        intro l
+        induction l with
+        | nil => intro a b _ h; simp [ContigTable, h]
+        | cons x t iht =>
+          intro a b hc h
+          cases t with
+          | nil => simp only [List.cons_append, List.nil_append, ContigTable] at hc ⊢; exact ⟨hc.1, h, trivial⟩
+          | cons y t' =>
+            simp only [List.cons_append, ContigTable] at hc ⊢
+            exact ⟨hc.1, by simpa using iht a b (by simpa using hc.2) h⟩
+      exact key _ _ _ ih (by simp [Nat.add_mul])
+
+example : loadByNumber [(0, 96256), (96000, 192512), (192000, 288000)] = [(0, 96000), (96000, 192000), (192000, 288000)] := by decide
+
 end Load
